@@ -28,38 +28,38 @@ Print Assumptions C18_calls_gated_template.
    in the evaluation of the generated code of any expression, an invocation of a callable is
    immediately preceded by a positive safety check of that same callable. *)
 Theorem C18_call_gate_sound :
-  forall policy invoke_result env attr_of item_of filter_res test_res op_res m e c,
+  forall policy invoke_result format_result env attr_of item_of filter_res test_res op_res m e c,
   sandboxed m = true ->
-  In (EvInvoke c) (fst (eval policy invoke_result env attr_of item_of filter_res test_res op_res (gen m e))) ->
+  In (EvInvoke c) (fst (eval policy invoke_result format_result env attr_of item_of filter_res test_res op_res (gen m e))) ->
   policy c = true /\
-  exists pre post, fst (eval policy invoke_result env attr_of item_of filter_res test_res op_res (gen m e))
+  exists pre post, fst (eval policy invoke_result format_result env attr_of item_of filter_res test_res op_res (gen m e))
                    = pre ++ EvCheck c true :: EvInvoke c :: post.
 Proof.
-  intros policy invoke_result env attr_of item_of filter_res test_res op_res m e c Hs Hin.
-  exact (eval_invoke_checked policy invoke_result env attr_of item_of filter_res test_res op_res
+  intros policy invoke_result format_result env attr_of item_of filter_res test_res op_res m e c Hs Hin.
+  exact (eval_invoke_checked policy invoke_result format_result env attr_of item_of filter_res test_res op_res
            (gen m e) c (gen_gated m e Hs) Hin).
 Qed.
 Print Assumptions C18_call_gate_sound.
 
 (* a callable the predicate in force rejects never runs *)
 Theorem C18_rejected_never_runs :
-  forall policy invoke_result env attr_of item_of filter_res test_res op_res m e c,
+  forall policy invoke_result format_result env attr_of item_of filter_res test_res op_res m e c,
   sandboxed m = true -> policy c = false ->
-  ~ In (EvInvoke c) (fst (eval policy invoke_result env attr_of item_of filter_res test_res op_res (gen m e))).
+  ~ In (EvInvoke c) (fst (eval policy invoke_result format_result env attr_of item_of filter_res test_res op_res (gen m e))).
 Proof.
-  intros policy invoke_result env attr_of item_of filter_res test_res op_res m e c Hs Hp.
-  exact (eval_unsafe_never_runs policy invoke_result env attr_of item_of filter_res test_res op_res
+  intros policy invoke_result format_result env attr_of item_of filter_res test_res op_res m e c Hs Hp.
+  exact (eval_unsafe_never_runs policy invoke_result format_result env attr_of item_of filter_res test_res op_res
            (gen m e) c (gen_gated m e Hs) Hp).
 Qed.
 Print Assumptions C18_rejected_never_runs.
 
 (* with the default predicate: marked unsafe or alters_data => never runs *)
 Theorem C18_unsafe_never_runs :
-  forall invoke_result env attr_of item_of filter_res test_res op_res m e c,
+  forall invoke_result format_result env attr_of item_of filter_res test_res op_res m e c,
   sandboxed m = true -> c_unsafe c = true \/ c_alters c = true ->
-  ~ In (EvInvoke c) (fst (eval is_safe_callable_default invoke_result env attr_of item_of filter_res test_res op_res (gen m e))).
+  ~ In (EvInvoke c) (fst (eval is_safe_callable_default invoke_result format_result env attr_of item_of filter_res test_res op_res (gen m e))).
 Proof.
-  intros invoke_result env attr_of item_of filter_res test_res op_res m e c Hs Hu.
+  intros invoke_result format_result env attr_of item_of filter_res test_res op_res m e c Hs Hu.
   apply C18_rejected_never_runs; [exact Hs|].
   unfold is_safe_callable_default. destruct Hu as [-> | ->]; [reflexivity|apply negb_false_iff, orb_true_r].
 Qed.
@@ -67,34 +67,51 @@ Print Assumptions C18_unsafe_never_runs.
 
 (* the gate: a rejected callable raises SecurityError and the log holds the refused check only;
    a refused check is the last event of any evaluation *)
-Theorem C18_gate_refuses : forall policy invoke_result c args, policy c = false ->
-  sandbox_call policy invoke_result (CVCallable c) args = ([EvCheck c false], OSecurityError).
+Theorem C18_gate_refuses : forall policy invoke_result format_result c args, policy c = false ->
+  sandbox_call policy invoke_result format_result (CVCallable c) args = ([EvCheck c false], OSecurityError).
 Proof. exact gate_refuses. Qed.
 Print Assumptions C18_gate_refuses.
 
 Theorem C18_refused_is_last :
-  forall policy invoke_result env attr_of item_of filter_res test_res op_res m e c,
+  forall policy invoke_result format_result env attr_of item_of filter_res test_res op_res m e c,
   sandboxed m = true ->
-  In (EvCheck c false) (fst (eval policy invoke_result env attr_of item_of filter_res test_res op_res (gen m e))) ->
+  In (EvCheck c false) (fst (eval policy invoke_result format_result env attr_of item_of filter_res test_res op_res (gen m e))) ->
   policy c = false /\
-  exists pre, fst (eval policy invoke_result env attr_of item_of filter_res test_res op_res (gen m e)) = pre ++ [EvCheck c false].
+  exists pre, fst (eval policy invoke_result format_result env attr_of item_of filter_res test_res op_res (gen m e)) = pre ++ [EvCheck c false].
 Proof.
-  intros policy invoke_result env attr_of item_of filter_res test_res op_res m e c Hs Hin.
-  pose proof (good_log_ok policy _ (eval_good policy invoke_result env attr_of item_of filter_res test_res op_res
+  intros policy invoke_result format_result env attr_of item_of filter_res test_res op_res m e c Hs Hin.
+  pose proof (good_log_ok policy _ (eval_good policy invoke_result format_result env attr_of item_of filter_res test_res op_res
                                       (gen m e) (gen_gated m e Hs))) as Hok.
   destruct (refused_is_last policy _ c Hok Hin) as [Hp [pre [Heq _]]]. split; [exact Hp|]. exists pre. exact Heq.
 Qed.
 Print Assumptions C18_refused_is_last.
 
+(* a bound str.format / str.format_map — wherever it came from, also when the host put it into the
+   render data — is never run natively by a call written in the template: the sandboxed formatter
+   runs on its format string instead (this is what keeps C17's format-field theorem applicable
+   to host-supplied method references) *)
+Theorem C18_format_methods_routed :
+  forall policy invoke_result format_result env attr_of item_of filter_res test_res op_res m e c,
+  sandboxed m = true -> c_format c = true ->
+  ~ In (EvInvoke c) (fst (eval policy invoke_result format_result env attr_of item_of filter_res test_res op_res (gen m e))).
+Proof.
+  intros policy invoke_result format_result env attr_of item_of filter_res test_res op_res m e c Hs Hf.
+  exact (eval_format_never_native policy invoke_result format_result env attr_of item_of filter_res test_res op_res
+           (gen m e) c (gen_gated m e Hs) Hf).
+Qed.
+Print Assumptions C18_format_methods_routed.
+
 (* ------------------------------------------------------------------ witnesses *)
-Definition ex_unsafe : callable := mkCallable 1 true false.
-Definition ex_alters : callable := mkCallable 2 false true.
-Definition ex_safe : callable := mkCallable 3 false false.
+Definition ex_unsafe : callable := mkCallable 1 true false false.
+Definition ex_alters : callable := mkCallable 2 false true false.
+Definition ex_safe : callable := mkCallable 3 false false false.
+Definition ex_fmt : callable := mkCallable 4 false false true.
 Definition ex_env (n : string) : cval :=
+  if String.eqb n "hf" then CVCallable ex_fmt else
   if String.eqb n "u" then CVCallable ex_unsafe else if String.eqb n "a" then CVCallable ex_alters
   else if String.eqb n "s" then CVCallable ex_safe else CVUndef.
 Definition ex_eval (m : mode) (e : expr) : res :=
-  eval is_safe_callable_default (fun _ _ => CVData 7) ex_env (fun v _ => v) (fun vs => hd CVUndef vs)
+  eval is_safe_callable_default (fun _ _ => CVData 7) (fun _ _ => CVData 8) ex_env (fun v _ => v) (fun vs => hd CVUndef vs)
        (fun _ vs => hd CVUndef vs) (fun _ _ => CVData 1) (fun _ vs => hd CVUndef vs) (gen m e).
 
 (* u(s()) with u unsafe, s safe:  s is checked and runs, u is checked, refused, never runs *)
@@ -103,6 +120,7 @@ Definition ex_expr : expr := ECall (EName "u") [ECall (EName "s") [] [] None Non
 Example C18_example :
   ex_eval (mkMode true false) ex_expr = ([EvCheck ex_safe true; EvInvoke ex_safe; EvCheck ex_unsafe false], OSecurityError) /\
   ex_eval (mkMode true true) (EFilter "default" (ECall (EName "a") [] [] None None) [] []) = ([EvCheck ex_alters false], OSecurityError) /\
+  ex_eval (mkMode true false) (ECall (EName "hf") [EName "s"] [] None None) = ([EvCheck ex_fmt true; EvFormat ex_fmt], OVal (CVData 8)) /\
   show (gen (mkMode true false) ex_expr) = "ENVCALL(V(u);ENVCALL(V(s);;;_;_);k=V(a);_;_)"%string.
 Proof. vm_compute. repeat split; reflexivity. Qed.
 
